@@ -778,6 +778,7 @@ func init() {
 			for _, p := range fixed {
 				cs = append(cs, debugCases(eng, dbgFamily, vals, p, "prog:fixed", nil)...)
 			}
+			cs = append(cs, debugFacadeHistoryCases()...)
 			// the public entry point
 			feng := newEngine(nil)
 			for hi, h := range dbgHosts() {
@@ -824,4 +825,69 @@ func init() {
 			return cs
 		},
 	})
+}
+
+// debugFacadeHistoryCases: yae.Debug called several times in one process with the SAME source and
+// environments of the SAME Go type (map[string]interface{}, one struct type) whose contents have
+// different yae types or values: every call must agree with yae.Eval on that environment (value or
+// failure) and show the values of THAT environment — nothing may be remembered from earlier calls.
+func debugFacadeHistoryCases() []Case {
+	type opt struct {
+		P *float64 `yae:"p"`
+		Q string   `yae:"q"`
+	}
+	f := 2.5
+	histories := []struct {
+		src  string
+		envs []interface{}
+	}{
+		{`lhs + rhs`, []interface{}{map[string]interface{}{"lhs": 1, "rhs": 2}, map[string]interface{}{"lhs": "x", "rhs": "y"}, map[string]interface{}{"lhs": 3.5, "rhs": 4}, map[string]interface{}{"lhs": "p", "rhs": "q"}}},
+		{`len(xs) > 1 ? xs[0] : xs[0]`, []interface{}{map[string]interface{}{"xs": []int{1, 2}}, map[string]interface{}{"xs": []string{"a"}}, map[string]interface{}{"xs": []float64{7}}}},
+		{`a == b`, []interface{}{map[string]interface{}{"a": 1, "b": 1.0}, map[string]interface{}{"a": "s", "b": "t"}, map[string]interface{}{"a": true, "b": true}}},
+		{`string(v)`, []interface{}{map[string]interface{}{"v": 1}, map[string]interface{}{"v": "one"}, map[string]interface{}{"v": []int{1}}, map[string]interface{}{"v": map[string]int{"k": 1}}}},
+		{`q + "!"`, []interface{}{opt{&f, "a"}, opt{nil, "b"}, opt{&f, "c"}}},
+	}
+	var cs []Case
+	for _, h := range histories {
+		human := fmt.Sprintf("debug facade history %q over %d environments of one Go type", h.src, len(h.envs))
+		c := Case{Human: human, Tags: []string{"dbg:facade-history"}, Nontriv: true, Want: "agree"}
+		if guardBegin(human) {
+			cs = append(cs, crashCase(human))
+			continue
+		}
+		func() {
+			defer guardEnd()
+			for round := 0; round < 2 && c.OracleID == ""; round++ {
+				for i, env := range h.envs {
+					var dv, ev *val.Val
+					var derr, eerr error
+					var report string
+					var pan interface{}
+					captureStdout(func() {
+						defer func() { pan = recover() }()
+						dv, report, derr = yae.Debug(h.src, env)
+						ev, eerr = yae.Eval(h.src, env)
+					})
+					d, e := describe(dv, derr), describe(ev, eerr)
+					if derr != nil && eerr != nil {
+						d, e = "error", "error"
+					}
+					switch {
+					case pan != nil:
+						c.OracleID, c.Oracle = "debug-panic", fmt.Sprintf("call #%d of round %d panics: %v", i, round, pan)
+					case d != e:
+						c.OracleID, c.Oracle = "debug-result-differs", fmt.Sprintf("call #%d of round %d (%v): Debug gives %s, Eval gives %s", i, round, env, d, e)
+					case derr == nil && strings.SplitN(report, "\n", 2)[0] != h.src:
+						c.OracleID, c.Oracle = "debug-render-firstline", fmt.Sprintf("call #%d: first line %q", i, strings.SplitN(report, "\n", 2)[0])
+					}
+					if c.OracleID != "" {
+						c.Want = "differs"
+						break
+					}
+				}
+			}
+		}()
+		cs = append(cs, c)
+	}
+	return cs
 }
